@@ -621,6 +621,9 @@ func TestCheck(t *testing.T) {
 	r := report.Start(t, "C16")
 	defer r.Finish()
 
+	bubble.SetT(t)
+	stressGroups(r)
+
 	abandoned := 0
 	samples := 0
 	runOne := func(sp spec, cnt counters, sampleIt bool) {
